@@ -1,15 +1,28 @@
 #!/usr/bin/env python3
 """Runs the registered quick checks against every seeded change under /verif/seeded.
 
-For each seeded/<ID>-m<k>/patch.diff: git -C /repo apply, ./check <ID> (plus any extra property ids
-given in meta.json "also_check"), git -C /repo checkout -- . ; the outcome is recorded in
-meta.json under "detected_by" and summarised in seeded/RESULTS.json.
+/repo is never written: for each seeded/<ID>-m<k>/patch.diff a scratch copy of /repo's working tree
+(/var/tmp/verif_seeded/repo, refreshed with rsync before every patch and removed at the end) gets the
+patch, and ./check <ID> (plus any extra property ids given in meta.json "also_check") runs with
+VERIF_REPO pointing at the copy and VERIF_OUT at /var/tmp/verif_seeded/out, so the registered
+evidence/ and replays/ are not touched either. (An earlier version patched /repo in place and
+reverted afterwards; a run that was cut off left a seeded change in /repo, which the end-of-round
+snapshot then committed - see DESIGN.md, "Incident".) The outcome is recorded in meta.json under
+"detected_by" and summarised in seeded/RESULTS.json.
 Usage: run_seeded.py [name ...]
 """
-import json, os, re, subprocess, sys, time
+import json, os, shutil, subprocess, sys, time
 
 VERIF = "/verif"
 REPO = "/repo"
+SCRATCH = "/var/tmp/verif_seeded"
+COPY = os.path.join(SCRATCH, "repo")   # the last path element stays "repo": harness stack filters look for "/repo/"
+OUT = os.path.join(SCRATCH, "out")
+
+
+def refresh():
+    os.makedirs(COPY, exist_ok=True)
+    subprocess.run(["rsync", "-a", "--delete", "--exclude", ".git", REPO + "/", COPY + "/"], check=True)
 
 
 def main():
@@ -17,38 +30,41 @@ def main():
     if subprocess.run(["git", "-C", REPO, "diff", "--quiet"]).returncode != 0:
         print("/repo has uncommitted changes to tracked files; refusing to run")
         sys.exit(2)
+    head = subprocess.check_output(["git", "-C", REPO, "rev-parse", "--short", "HEAD"]).decode().strip()
     results = {}
     rp = os.path.join(VERIF, "seeded", "RESULTS.json")
     if os.path.exists(rp):
         results = json.load(open(rp))
-    for name in names:
-        d = os.path.join(VERIF, "seeded", name)
-        if not os.path.isdir(d):
-            continue
-        meta = json.load(open(os.path.join(d, "meta.json")))
-        pids = [meta["property"]] + list(meta.get("also_check", []))
-        a = subprocess.run(["git", "-C", REPO, "apply", os.path.join(d, "patch.diff")], capture_output=True, text=True)
-        if a.returncode != 0:
-            results[name] = {"error": "patch does not apply: " + a.stderr[-200:]}
-            print(name, "DOES NOT APPLY")
-            continue
-        det = {}
-        try:
+    env = dict(os.environ, VERIF_REPO=COPY, VERIF_OUT=OUT)
+    try:
+        for name in names:
+            d = os.path.join(VERIF, "seeded", name)
+            if not os.path.isdir(d):
+                continue
+            meta = json.load(open(os.path.join(d, "meta.json")))
+            pids = [meta["property"]] + list(meta.get("also_check", []))
+            refresh()
+            a = subprocess.run(["git", "apply", os.path.join(d, "patch.diff")], cwd=COPY, capture_output=True, text=True)
+            if a.returncode != 0:
+                results[name] = {"error": "patch does not apply: " + a.stderr[-200:]}
+                print(name, "DOES NOT APPLY", flush=True)
+                json.dump(results, open(rp, "w"), indent=1)
+                continue
+            det = {}
             for pid in pids:
                 t0 = time.time()
-                p = subprocess.run(["./check", pid], cwd=VERIF, capture_output=True, text=True)
+                p = subprocess.run(["./check", pid], cwd=VERIF, env=env, capture_output=True, text=True)
                 viol = [l for l in p.stdout.splitlines() if l.startswith("VIOLATION")]
                 whats = [l.strip()[:300] for l in p.stdout.splitlines() if l.startswith("  ") and not l.startswith("   ")][:3]
                 det[pid] = {"exit": p.returncode, "violations": len(viol), "first": whats, "seconds": round(time.time() - t0, 1)}
-        finally:
-            subprocess.run(["git", "-C", REPO, "checkout", "--", "."])
-        caught = any(v["exit"] == 1 and v["violations"] > 0 for v in det.values())
-        meta["detected_by"] = {"caught": caught, "checks": det, "repo_commit": subprocess.check_output(["git", "-C", REPO, "rev-parse", "--short", "HEAD"]).decode().strip()}
-        json.dump(meta, open(os.path.join(d, "meta.json"), "w"), indent=1)
-        results[name] = {"caught": caught, "checks": {k: (v["exit"], v["violations"]) for k, v in det.items()}}
-        print(name, "CAUGHT" if caught else "missed", results[name]["checks"], flush=True)
-        json.dump(results, open(rp, "w"), indent=1)
-    # evidence files were rewritten by runs on mutated trees: the caller must rerun the checks on the clean tree
+            caught = any(v["exit"] == 1 and v["violations"] > 0 for v in det.values())
+            meta["detected_by"] = {"caught": caught, "checks": det, "repo_commit": head}
+            json.dump(meta, open(os.path.join(d, "meta.json"), "w"), indent=1)
+            results[name] = {"caught": caught, "checks": {k: (v["exit"], v["violations"]) for k, v in det.items()}}
+            print(name, "CAUGHT" if caught else "missed", results[name]["checks"], flush=True)
+            json.dump(results, open(rp, "w"), indent=1)
+    finally:
+        shutil.rmtree(SCRATCH, ignore_errors=True)
 
 
 if __name__ == "__main__":
